@@ -407,6 +407,30 @@ func copyPaths(ps canvas.Paths) canvas.Paths {
 	return out
 }
 
+// jitter rebuilds a polygonal path with every vertex moved by k*2^-29, |k| <= 4, in x and y
+func jitter(p *canvas.Path, r *rng.R) *canvas.Path {
+	segs, err := pd.Decode(p.Data())
+	if err != nil {
+		return p
+	}
+	q := &canvas.Path{}
+	for _, s := range segs {
+		x := s.X + math.Ldexp(float64(r.Range(-4, 4)), -29)
+		y := s.Y + math.Ldexp(float64(r.Range(-4, 4)), -29)
+		switch s.Cmd {
+		case 'M':
+			q.MoveTo(x, y)
+		case 'L':
+			q.LineTo(x, y)
+		case 'Z':
+			q.Close()
+		default:
+			return p
+		}
+	}
+	return q
+}
+
 func boCase(o *out.W, r *rng.R, i int, settle bool) {
 	ipP := gen.Poly(r)
 	var ipQ gen.IPoly
@@ -444,6 +468,44 @@ func boCase(o *out.W, r *rng.R, i int, settle bool) {
 			ipP, ipQ = other, chain
 		}
 		fam = ipP.Family + "/" + ipQ.Family
+	case 5:
+		// concurrent edges: three to five triangles, each with one edge through a common point that is a vertex of none or
+		// only some of them (doubled coordinates: the point may be a half-grid point of the original grid); the edges
+		// include vertical and horizontal ones; the triangles are dealt to both operands
+		cx, cy := r.Range(-4, 4), r.Range(-4, 4)
+		dirs := [][2]int{{0, 1}, {1, 0}, {1, 1}, {1, -1}, {2, 1}, {1, 2}, {2, -1}, {1, -2}, {3, 1}, {1, 3}, {3, 2}, {2, 3}, {3, -1}, {2, -3}}
+		for k := len(dirs) - 1; k > 0; k-- {
+			j := r.Intn(k + 1)
+			dirs[k], dirs[j] = dirs[j], dirs[k]
+		}
+		nt := r.Range(3, 5)
+		var pcs, qcs [][]gen.IPt
+		for k := 0; k < nt; k++ {
+			d := dirs[k]
+			m, n := r.Range(1, 3), r.Range(1, 3)
+			if r.P(1, 6) {
+				m = 0 // this one has a vertex at the point
+			}
+			a := gen.IPt{X: cx - m*d[0], Y: cy - m*d[1]}
+			b := gen.IPt{X: cx + n*d[0], Y: cy + n*d[1]}
+			c := gen.IPt{X: r.Range(-8, 8), Y: r.Range(-8, 8)}
+			if (b.X-a.X)*(c.Y-a.Y)-(b.Y-a.Y)*(c.X-a.X) == 0 {
+				c = gen.IPt{X: a.X - d[1]*2, Y: a.Y + d[0]*2}
+			}
+			tri := []gen.IPt{a, b, c}
+			if r.Bool() {
+				tri = gen.Reverse(tri)
+			}
+			if k == 0 || (k > 1 && r.Bool()) {
+				pcs = append(pcs, tri)
+			} else {
+				qcs = append(qcs, tri)
+			}
+		}
+		sc := rng.Pick(r, []float64{1, 0.5, 0.25, 2})
+		ipP = gen.IPoly{Family: "concurrent", Scale: sc, Contours: pcs}
+		ipQ = gen.IPoly{Family: "concurrent", Scale: sc, Contours: qcs}
+		fam = "concurrent/concurrent"
 	case 0:
 		ipQ = ipP // identical operand
 		fam += "/same"
@@ -465,6 +527,12 @@ func boCase(o *out.W, r *rng.R, i int, settle bool) {
 	}
 	P := build(ipP, 0, 0)
 	Q := build(ipQ, dx, dy)
+	if r.P(1, 5) {
+		// leaning edges: every vertex moved by a few multiples of 2^-29 (1.9e-9), which turns vertical and coincident edges into
+		// edges that lean over by less than the snap grid and shared vertices into clusters inside one tolerance square
+		P, Q = jitter(P, r), jitter(Q, r)
+		fam += "+jitter"
+	}
 	if r.P(1, 4) {
 		// near miss: one more triangle in P with a vertex 2^-29 or 2^-28 (1.9e-9, 3.7e-9: inside the 1e-8 snap square) beside
 		// an integer point of an edge of P, without being an exact intersection
